@@ -6,7 +6,7 @@
    model.  The three cleanups (outer handler, inner handler, model-processor handler of
    internal_model_from_file) are read from the source by the translator (Gen/SrcRepo.v), so
    these theorems are re-proved against the current source on every run. *)
-From TxV Require Import Core.Base Model.RepoDefs Gen.SrcRepo Model.Repo Proofs.RepoProofs.
+From TxV Require Import Core.Base Model.RepoDefs Gen.SrcRepo Model.Repo Proofs.RepoProofs Proofs.RepoMLProofs.
 
 (* For every file system, import graph, configuration and well-formed state: if the load fails
    (any error, any file, any phase) then all_models is exactly what it was when the load began
@@ -187,3 +187,57 @@ Example C18_phases_witness :
   fst (load_main [mk [[1]] [] false false false; mk [[0]] [] false false true] c 0 (init_state [])) = inl (EMp 1).
 Proof. vm_compute. repeat split; reflexivity. Qed.
 Print Assumptions C18_phases_witness.
+
+(* SEVERAL REGISTERED LANGUAGES, each metamodel with its own global repository (machine ml_load of Model/Repo.v).
+   The form of C18 that is true there: after a failed load NO repository has lost an entry it had before, NO
+   repository holds a model CREATED by the failed load (every registered model existed before it began; the importer's
+   repository may have gained complete models taken from the other languages' repositories, which stay referenced),
+   the heap of model objects is what it was, and the machine state is well formed again. *)
+Theorem C18_clean_several_languages : forall fs mc f s repos e s' repos',
+  MStable (s, repos) -> ml_load fs mc f (s, repos) = (inl e, (s', repos')) ->
+  (forall K, incl (repo_of repos K) (repo_of repos' K)) /\
+  (forall K k v, In (k, v) (repo_of repos' K) -> v < length (heap s)) /\
+  heap s' = heap s /\ MStable (s', repos').
+Proof. exact ml_load_failure_clean. Qed.
+Print Assumptions C18_clean_several_languages.
+
+Theorem C18_several_languages_state_invariant : forall mc ops fs ms, MStable ms -> MStable (ml_hist mc fs ms ops).
+Proof. exact ml_hist_stable. Qed.
+Print Assumptions C18_several_languages_state_invariant.
+
+Theorem C18_clean_several_languages_in_every_history : forall mc fs0 ops fs f e s' repos',
+  let ms := ml_hist mc fs0 (init_state [], []) ops in
+  ml_load fs mc f ms = (inl e, (s', repos')) ->
+  (forall K, incl (repo_of (snd ms) K) (repo_of repos' K)) /\
+  (forall K k v, In (k, v) (repo_of repos' K) -> v < length (heap (fst ms))) /\
+  heap s' = heap (fst ms) /\ MStable (s', repos').
+Proof. exact ml_failure_clean_in_history. Qed.
+Print Assumptions C18_clean_several_languages_in_every_history.
+
+(* for one load with an arbitrary external cache: the importer's all_models loses nothing, holds only models that
+   existed before, earlier models' local_models are untouched *)
+Theorem C18_clean_across_languages : forall x xvals fs c f s e s',
+  Stable s -> XOK (length (heap s)) x (begin_op c s) ->
+  (forall g m', x g = Some m' -> In m' xvals) -> (forall v, In v xvals -> v < length (heap s)) ->
+  load_main_x x xvals fs c f s = (inl e, s') ->
+  incl (allm (begin_op c s)) (allm s') /\
+  (forall k v, In (k, v) (allm s') -> v < length (heap s)) /\
+  (forall y, y < length (heap s) -> local_of y s' = local_of y s) /\ Stable s' /\
+  heap s' = heap s /\ (forall v, In v (constr s') -> In v (constr s)).
+Proof. exact load_main_x_failure_clean. Qed.
+Print Assumptions C18_clean_across_languages.
+
+(* non-vacuity: b.typ cached by its own language; a.model imports it and its model processor fails (the defect fixed
+   by 0e285cb): the .typ repository keeps b.typ, the .model repository has gained that same earlier model and nothing
+   else, no model of the attempt remains *)
+Example C18_several_languages_witness :
+  let fs := [mkFile [[1]] [100%N] [101%N] false false true; mkFile [] [101%N] [] false false false] in
+  let mc := mkML [true; true] [0; 1] in
+  let ms := snd (ml_load fs mc 1 (init_state [], [])) in
+  let r := ml_load fs mc 0 ms in
+  MStable ms /\ fst r = inl (EMp 0) /\ repo_of (snd ms) 1 = [(1, 0)] /\ repo_of (snd ms) 0 = [] /\
+  repo_of (snd (snd r)) 1 = [(1, 0)] /\ repo_of (snd (snd r)) 0 = [(1, 0)] /\ length (heap (fst (snd r))) = 1.
+Proof.
+  cbn zeta. split; [apply (ml_load_stable _ _ 1 (init_state [], [])), MStable_init|]. vm_compute. repeat split; reflexivity.
+Qed.
+Print Assumptions C18_several_languages_witness.
